@@ -17,8 +17,9 @@ type Oblig struct {
 	Label   string
 	Site    string
 	Unit    string
-	Goal    *Term // pc => condition
-	NAssume int   // assumptions [0,NAssume) are in scope
+	Goal    *Term   // pc => condition
+	Parts   []*Term // when non-empty: the obligation is the conjunction of these goals, solved separately
+	NAssume int     // assumptions [0,NAssume) are in scope
 	Src     string
 	Bounded bool
 	Self    int // index of the assumption entry derived from this obligation (-1 if none)
@@ -28,6 +29,7 @@ type Oblig struct {
 	Seconds float64
 	Output  string
 	Trivial bool
+	FailPart int
 }
 
 type assumption struct {
@@ -92,6 +94,8 @@ type Exec struct {
 	compLeaf    map[string]Leaf
 	slenAxiom   bool
 	ranged      map[int]bool
+	curAlloc    *Term
+	slotAxiom   bool
 }
 
 type Frame struct {
@@ -160,6 +164,7 @@ func (x *Exec) reset() {
 	x.termMissing = nil
 	x.nilChecked = nil
 	x.slenAxiom = false
+	x.slotAxiom = false
 	x.ranged = map[int]bool{}
 }
 
@@ -223,6 +228,29 @@ func (x *Exec) oblige(st *State, kind, label, site, src string, cond *Term) {
 	} else {
 		o.Trivial = true
 	}
+}
+
+// obligeParts records one obligation whose goal is the conjunction of parts
+// (each part already carries its own path condition).
+func (x *Exec) obligeParts(kind, label, site, src string, parts []*Term) {
+	if x.dry {
+		return
+	}
+	name := fmt.Sprintf("%s/%s[%s]", x.unitName, kind, label)
+	if site != "" {
+		name += "@" + site
+	}
+	n := x.names[name]
+	x.names[name] = n + 1
+	if n > 0 {
+		name = fmt.Sprintf("%s~%d", name, n+1)
+	}
+	o := &Oblig{Name: name, Kind: kind, Label: label, Site: site, Unit: x.unitName, Parts: parts,
+		Goal: x.C.And(parts...), NAssume: len(x.assumes), Src: src, Bounded: x.bounded, Self: -1}
+	if len(parts) == 0 {
+		o.Trivial = true
+	}
+	x.obligs = append(x.obligs, o)
 }
 
 // ---- CFG helpers ----
@@ -490,6 +518,9 @@ func (x *Exec) execFunc(fn *ssa.Function, args []Val, bindings []Val, st *State,
 		if in == nil {
 			continue
 		}
+		if isUnit && li == nil && x.splitReturn(fr, b, edge, &rets) {
+			continue
+		}
 		// phis (entry values for loop headers)
 		phiEntry := map[*ssa.Phi]Val{}
 		for _, ins := range b.Instrs {
@@ -716,10 +747,15 @@ func (x *Exec) enterLoop(fr *Frame, li *loopInfo, in *State, phiEntry map[*ssa.P
 			continue
 		}
 		st.Heap[k] = c.Fresh("Hl!"+k, srt)
-		x.rangeAxiom(k, st.Heap[k])
 	}
 	st.Alloc = c.Fresh("alloc!loop", SInt)
 	x.assume(st, c.Le(pre.Alloc, st.Alloc))
+	x.curAlloc = st.Alloc
+	for _, k := range keys {
+		if _, ok := x.compSorts[k]; ok && !strings.HasPrefix(k, "cell:") {
+			x.rangeAxiom(k, st.Heap[k])
+		}
+	}
 	x.frameAxioms(st, keys)
 	for _, phi := range phis {
 		v := x.symbolicLike(phiEntry[phi], "phi!"+phi.Name(), phi.Type())
@@ -933,4 +969,39 @@ func hasQuant(t *Term) bool {
 		return false
 	}
 	return rec(t)
+}
+
+// splitReturn: a block that only merges paths and returns is not executed on
+// the merged state; each incoming path becomes its own return, so that
+// postconditions are checked path by path (smaller queries, same meaning).
+func (x *Exec) splitReturn(fr *Frame, b *ssa.BasicBlock, edge map[*ssa.BasicBlock]map[*ssa.BasicBlock]*State, rets *[]retInfo) bool {
+	var ret *ssa.Return
+	for _, ins := range b.Instrs {
+		switch t := ins.(type) {
+		case *ssa.Phi, *ssa.DebugRef:
+		case *ssa.Return:
+			ret = t
+		default:
+			return false
+		}
+	}
+	if ret == nil || len(b.Preds) < 2 || len(fr.defers) > 0 {
+		return false
+	}
+	for i, p := range b.Preds {
+		e := edge[p][b]
+		if e == nil || isFalse(e.PC) {
+			continue
+		}
+		var vals []Val
+		for _, r := range ret.Results {
+			if phi, ok := r.(*ssa.Phi); ok && phi.Block() == b {
+				vals = append(vals, x.val(fr, phi.Edges[i]))
+			} else {
+				vals = append(vals, x.val(fr, r))
+			}
+		}
+		*rets = append(*rets, retInfo{e.Clone(), vals})
+	}
+	return true
 }
